@@ -108,6 +108,23 @@ def _replay_known(args):
     return {"path": path, "key": v["key"] if v else None, "digest": r.digest, "expected": doc["expected"]}
 
 
+POOL_KILLED = [False]
+
+
+def _watchdog(limit_s):
+    """hard wall-clock limit for the whole check: never exit 0 or 1 because of a stuck harness"""
+    import threading
+
+    def fire():
+        sys.stdout.write("HARNESS-TIMEOUT check.py exceeded its wall-clock limit of %d s\n" % limit_s)
+        sys.stdout.flush()
+        os._exit(2)
+
+    t = threading.Timer(limit_s, fire)
+    t.daemon = True
+    t.start()
+
+
 def merge(total, d):
     for k, v in d.items():
         if isinstance(v, dict):
@@ -140,6 +157,7 @@ def main():
     jobs = int(os.environ.get("VERIF_JOBS") or os.cpu_count() or 4)
     t0 = time.time()
     print("check %s tier=%s VERIF_SEED=%d repo=%s jobs=%d" % (prop, args.tier, seed, repo, jobs), flush=True)
+    _watchdog(int(os.environ.get("VERIF_WALL_LIMIT_S") or (3600 if args.tier == "quick" else args.budget + 3600)))
 
     if args.replay:
         return do_replay(prop, repo, args.replay)
@@ -209,6 +227,9 @@ def main():
                             pr.kill()
                         except Exception:
                             pass
+                    # a killed OS worker may have held one of the executor's own queue locks: never wait
+                    # for the executor after this point (and leave through os._exit at the end)
+                    POOL_KILLED[0] = True
                     break
         else:
             # time-boxed: keep every OS worker busy until the budget is used, part shares by wall time
@@ -262,7 +283,7 @@ def main():
         pool.shutdown(wait=False, cancel_futures=True)
         return 2
     finally:
-        pool.shutdown(wait=True, cancel_futures=True)
+        pool.shutdown(wait=not POOL_KILLED[0], cancel_futures=True)
 
     wall_search = time.time() - t0
     rc = 0
@@ -475,4 +496,7 @@ if __name__ == "__main__":
     finally:
         shutil.rmtree(_root, ignore_errors=True)
     sys.stdout.flush()
+    sys.stderr.flush()
+    if POOL_KILLED[0]:
+        os._exit(rc)  # the executor's helper threads may be stuck behind a killed worker: skip interpreter shutdown
     sys.exit(rc)
